@@ -85,6 +85,10 @@ def configs(tier):
     out.append(("align", dict(n=2, s=2, rel=((0, (0, 1)), (1, (1,))),
                               threads=2, period=None, fault=("B", 1),
                               skip=True, info=True), wide))
+    # compressed files of one base name in different directories: whatever
+    # decompress() derives from the base name alone is shared by two readers
+    for op in ("map", "collect"):
+        out.append(("gz", dict(n=2, workers=2, op=op), wide))
     if not q:
         out.append(("output", dict(n=3, workers=2, wtype="thread"), 1))
     return out
@@ -183,6 +187,69 @@ def judge_output(c, obs):
     return None
 
 
+# ------------------------------------------------ compressed twins harness
+
+GZ_TEMPLATE = "{year}/{month}{day}/{hour}{minute}.dat.gz"
+
+
+def gz_reader(file_info):
+    import json
+    with open(os.fspath(file_info.path)) as f:
+        return json.load(f)
+
+
+def build_gz(root, n):
+    import datetime
+    import gzip
+    import json
+    from typhon.files import FileSet, FileHandler
+    os.makedirs(root, exist_ok=True)
+    for k in range(n):
+        t = datetime.datetime(2020, 2, 28 + k, 6, 0)
+        path = os.path.join(root, t.strftime("%Y/%m%d/%H%M.dat.gz"))
+        os.makedirs(os.path.dirname(path), exist_ok=True)
+        with gzip.open(path, "wt") as f:
+            json.dump({"id": k}, f)
+    tmp = os.path.join(root, "tmp")
+    os.makedirs(tmp, exist_ok=True)
+    return FileSet(os.path.join(root, GZ_TEMPLATE), name="c10gz",
+                   handler=FileHandler(reader=gz_reader), temp_dir=tmp), tmp
+
+
+def gz_func(content, info):
+    return (content["id"], os.path.basename(os.path.dirname(info.path)))
+
+
+def execute_gz(c, fs):
+    try:
+        if c["op"] == "map":
+            r = fs.map(gz_func, on_content=True, pass_info=True,
+                       worker_type="thread", max_workers=c["workers"])
+            res = ("ok", tuple(r))
+        else:
+            r = fs.collect(max_workers=c["workers"])
+            res = ("ok", tuple(x["id"] for x in r))
+    except threads.Deadlock as exc:
+        res = ("deadlock", str(exc))
+    except Exception as exc:
+        cp.reraise_watchdog(exc)
+        res = ("exception", type(exc).__name__, str(exc)[:120])
+    return res
+
+
+def judge_gz(c, obs, tmp):
+    exp = tuple((k, "02%02d" % (28 + k)) for k in range(c["n"])) \
+        if c["op"] == "map" else tuple(range(c["n"]))
+    if obs[0] != "ok":
+        return ("threads/gz/" + "/".join(obs[:2]), exp, obs)
+    if obs[1] != exp:
+        return ("threads/gz/wrong-results", exp, obs[1])
+    left = sorted(os.listdir(tmp))
+    if left:
+        return ("threads/gz/temporary-left-behind", [], left)
+    return None
+
+
 # ----------------------------------------------------------------- running
 
 def make_run(kind, c, root):
@@ -191,6 +258,9 @@ def make_run(kind, c, root):
     if kind == "ops":
         fs, files = cp.build(os.path.join(root, "ops%d" % c["n"]), c["n"],
                              c["fs_wtype"])
+    elif kind == "gz":
+        fs, gztmp = build_gz(os.path.join(root, "gz"), c["n"])
+        files = None
     elif kind == "align":
         from checks import c10_align as ca
         fs, B, files, fb = ca.build(os.path.join(root, "al"), c["n"], c["s"],
@@ -213,6 +283,8 @@ def make_run(kind, c, root):
         try:
             if kind == "ops":
                 obs = r.execute()
+            elif kind == "gz":
+                obs = execute_gz(c, fs)
             elif kind == "align":
                 B.info_cache.clear()
                 obs = ca.execute(fs, B, files, fb, c)
@@ -233,6 +305,8 @@ def make_run(kind, c, root):
             bad = cp.judge(c, obs, None)
             if bad is not None:
                 bad = ("threads/" + bad[0],) + tuple(bad[1:])
+        elif kind == "gz":
+            bad = judge_gz(c, obs, gztmp)
         elif kind == "align":
             bad = ca.judge(c, obs)
             if bad is not None:
